@@ -505,6 +505,12 @@ func userPlacement(idx int, r *rng) (interface{}, interface{}) {
 	case 47:
 		// a registered folder that handles nil itself gets the nil pointer wherever it sits
 		var np *ufNil
+		switch r.n(3) {
+		case 0:
+			return []interface{}{np, &ufNil{n}, []interface{}{np}}, []interface{}{"nilN", n, []interface{}{"nilN"}}
+		case 1:
+			return map[string]interface{}{k: []interface{}{np, np}}, xo{{k, []interface{}{"nilN", "nilN"}}}
+		}
 		return struct {
 				F *ufNil
 				L []*ufNil
@@ -591,6 +597,11 @@ func userfoldRun(mode string, items [][2]uint64) string {
 	o := guard(guardTime, func() {
 		xrec := newXRecorder(-1)
 		var vis structform.Visitor = xrec
+		failK := -1
+		if i := strings.Index(mode, "f"); i >= 0 {
+			failK = atoi(mode[i+1:]) // the visitor fails at the k-th event of the LAST item
+			mode = mode[:i]
+		}
 		if mode == "p" {
 			vis = xrec.refRecorder.recorder // a plain visitor: no extended interfaces
 		}
@@ -632,6 +643,9 @@ func userfoldRun(mode string, items [][2]uint64) string {
 				continue
 			}
 			v, x := userPlacementFixed(int(item[0]), item[1])
+			if i == len(items)-1 && failK >= 0 {
+				xrec.failAt = xrec.calls + failK
+			}
 			if item[1]%2 == 0 {
 				// the same value goes through Fold WITHOUT any option first (its result does not
 				// matter): whatever that leaves behind in the process must not change what the
@@ -666,6 +680,9 @@ func userfoldCase(r *rng) string {
 		parts[i] = fmt.Sprintf("%d:%d", items[i][0], items[i][1])
 	}
 	mode := []string{"x", "p"}[r.n(2)]
+	if r.chance(1, 4) && int(items[n-1][0]) < nUserPlacements {
+		mode += fmt.Sprintf("f%d", r.n(12))
+	}
 	return fmt.Sprintf("userfold\t%s %s\t%s", mode, strings.Join(parts, " "), userfoldRun(mode, items))
 }
 
